@@ -1,4 +1,7 @@
 use corr::common::*;
+
+#[global_allocator]
+static ALLOC: corr::c17::Counting = corr::c17::Counting;
 use std::path::PathBuf;
 
 fn main() {
@@ -24,7 +27,7 @@ fn main() {
     if resolve {
         // second pass: evaluate the external calls the model left in its output (codec runs for C10)
         if id == "C10" { corr::c10::resolve(&out); }
-        if ["C01", "C02", "C03", "C04", "C11"].contains(&id.as_str()) { corr::pkt::resolve(&out); }
+        if ["C01", "C02", "C03", "C04", "C11", "C17"].contains(&id.as_str()) { corr::pkt::resolve(&out); }
         return;
     }
     if std::env::var("CORR_SHOW_PANICS").is_err() { silence_panics(); }
@@ -42,6 +45,7 @@ fn main() {
         "C14" => corr::c14::run(&mut ctx),
         "C15" => corr::c15::run(&mut ctx),
         "C16" => corr::c16::run(&mut ctx),
+        "C17" => corr::c17::run(&mut ctx),
         "C18" => corr::c18::run(&mut ctx),
         "C19" => corr::c19::run(&mut ctx),
         "C20" => corr::c20::run(&mut ctx),
